@@ -148,6 +148,18 @@ def check_area(ctx, cat, model, outlet, inlets, case, nval=None, cyc=None):
                   case, {"len": len(area)})
         return None
     ref = model.area(outlet, inlets)
+    # results handed out by earlier delineations (same object and a second object on
+    # the same grid) are still what they were
+    kept = ctx.__dict__.setdefault("_kept_areas", [])
+    for (ka, kf, kref, kcase) in kept:
+        ctx.check("area.earlier-result-kept",
+                  set(int(v) for v in ka) == kref and len(ka) == len(kref) and
+                  set(int(v) for v in kf) >= kref,
+                  "delineate_area|earlier-result-overwritten", kcase,
+                  lambda: {"kept_now": [int(v) for v in ka], "was": sorted(kref),
+                           "later_call": {"outlet": outlet, "inlets": list(inlets)}})
+    kept.append((cat.idxcells_area, cat.idxcells_area_filled, set(ref), case))
+    del kept[:-3]
     ctx.check("area.exact", set(area) == ref and len(area) == len(set(area)),
               "delineate_area|area", case,
               lambda: {"got": sorted(area), "expected": sorted(ref),
@@ -233,6 +245,8 @@ def run_grid(ctx, codes, case_base, full=True, rng=None, max_outlets=None):
     nr, nc = codes.shape
     model = FlowGraph(codes.tolist())
     cat, fd = make_catch(codes)
+    cat_b = mods().Catchment("second", fd)      # a second object on the same grid
+    ctx.__dict__["_kept_areas"] = []
     n = model.n
     cyc = model.has_cycle()
     ctx.evaluated()
@@ -273,7 +287,9 @@ def run_grid(ctx, codes, case_base, full=True, rng=None, max_outlets=None):
         for inl in isets:
             case = dict(case_base, outlet=int(o), inlets=list(inl))
             ctx.evaluated()
-            ref = check_area(ctx, cat, model, o, list(inl), case, cyc=cyc)
+            # outlets alternate between the two catchment objects
+            use = cat if (o + len(inl)) % 3 else cat_b
+            ref = check_area(ctx, use, model, o, list(inl), case, cyc=cyc)
             if ref is not None and len(ref) >= 2:
                 ctx.nontrivial(codes, o, inl)
             # the catchment object is reused from outlet to outlet: the table must
@@ -281,7 +297,7 @@ def run_grid(ctx, codes, case_base, full=True, rng=None, max_outlets=None):
             if ref is not None and (len(inl) == 0 or ctx.evaluations % 4 == 0):
                 if len(ref) == 0:
                     ctx.tag("flowpath:empty-area")
-                check_flowpaths(ctx, cat, model, o, ref, case)
+                check_flowpaths(ctx, use, model, o, ref, case)
     starts = range(n) if not max_outlets else \
         [int(s) for s in rng.choice(n, size=min(n, max_outlets), replace=False)]
     for s in starts:
